@@ -631,7 +631,80 @@ def gen_chain_cases(tier):
                 yield ("chain", ov, ad, order)
 
 
+# ---- members of a NAMELIST group: the variable of the innermost scope that declares the name ----------------------------------
+NL_HOST = ["none", "dummy", "local", "result"]
+
+
+def run_nlmember_case(st: Stats, case):
+    """`namelist /grp/ xq` in a procedure / in an internal procedure: which `xq` is meant.  Candidates: a module variable, the
+    host procedure's dummy argument / local variable / function result, the internal procedure's own local variable or dummy."""
+    _, in_module, host, inner, where = case
+    if where == "host" and (inner != "none"):
+        return
+    hostkind = "function" if host == "result" else "subroutine"
+    harg = "xq" if host == "dummy" else ""
+    L = ["module m", "  implicit none"] + (["  integer :: xq", "  !! tag:module"] if in_module else []) + ["contains"]
+    L.append(f"  {hostkind} hostproc({harg})" + (" result(xq)" if host == "result" else ""))
+    if host in ("dummy", "local", "result"):
+        L += ["    real :: xq", f"    !! tag:host-{host}"]
+    if host != "result" and hostkind == "function":
+        pass
+    if where == "host":
+        L += ["    namelist /grp/ xq"]
+    L += ["  contains", "    subroutine inner(" + ("xq" if inner == "dummy" else "") + ")"]
+    if inner in ("dummy", "local"):
+        L += ["      logical :: xq", f"      !! tag:inner-{inner}"]
+    if where == "inner":
+        L += ["      namelist /grp/ xq"]
+    L += ["    end subroutine inner", f"  end {hostkind} hostproc", "end module m"]
+    src = "\n".join(L) + "\n"
+    r = fordrun.build_fast({"src/m.f90": src}, dict(display=["public", "private", "protected"], proc_internals=True))
+    st.evaluations += 1
+    st.transitions += 1
+    stratum = f"namelist-member/{where}"
+    inp = dict(case=list(case), files={"src/m.f90": src})
+    feats = dict(slot="namelist-member", scope=where, present=f"module={in_module},host={host},inner={inner}", case="", order="")
+    st.nontrivial.add(core.digest(inp["case"]))
+    if r.error is not None or "ERROR in file" in r.log or "Error parsing" in r.log or not r.project.modules:
+        st.violation("ford-failed", stratum, feats, inp, repr(r.error) + r.log[-300:], "parses and correlates")
+        st.stratum(stratum, 1)
+        return
+    if where == "inner" and inner != "none":
+        want = f"tag:inner-{inner}"
+    elif host != "none":
+        want = f"tag:host-{host}"
+    elif in_module:
+        want = "tag:module"
+    else:
+        want = "<unresolved>"
+    hp = (r.project.modules[0].subroutines + r.project.modules[0].functions)[0]
+    scope = hp if where == "host" else hp.subroutines[0]
+    nls = getattr(scope, "namelists", [])
+    if len(nls) != 1 or len(nls[0].variables) != 1:
+        got = f"<{len(nls)} namelists>"
+    else:
+        v = nls[0].variables[0]
+        got = "<unresolved>" if isinstance(v, str) else next((l.strip() for l in getattr(v, "doc_list", []) if "tag:" in l), "<untagged>")
+    st.states.add(core.digest([case, got]))
+    if got != want:
+        st.violation("wrong-declaration", stratum, dict(feats, expected=want, observed=got), inp, got, want)
+        st.stratum(stratum, 1)
+    else:
+        st.stratum(stratum, 0)
+
+
+def gen_nlmember_cases(tier):
+    for in_module in (False, True):
+        for host in NL_HOST:
+            for inner in ("none", "local", "dummy"):
+                for where in ("host", "inner"):
+                    if where == "host" and inner != "none":
+                        continue
+                    yield ("nlmember", in_module, host, inner, where)
+
+
 def gen_cases(tier):
+    yield from gen_nlmember_cases(tier)
     yield from gen_sub_cases(tier)
     yield from gen_ifb_cases(tier)
     yield from gen_chain_cases(tier)
@@ -737,6 +810,8 @@ def work(chunk):
             run_ifb_case(st, case)
         elif case[0] == "chain":
             run_chain_case(st, case)
+        elif case[0] == "nlmember":
+            run_nlmember_case(st, case)
         else:
             run_case(st, case)
     return st
@@ -748,6 +823,12 @@ def replay(path):
     core.use_repo()
     rec = json.loads(open(path).read())
     st = Stats()
+    if rec["input"]["case"][0] == "nlmember":
+        run_nlmember_case(st, tuple(rec["input"]["case"]))
+        print(rec["input"]["files"]["src/m.f90"])
+        for v in st.violations:
+            print("REPRODUCED", v["clause"], "got", v["observed"], "want", v["expected"])
+        return 1 if st.violations else 0
     if rec["input"]["case"][0] == "chain":
         c = rec["input"]["case"]
         run_chain_case(st, ("chain", tuple(c[1]), tuple(c[2]), tuple(c[3])))
